@@ -170,6 +170,85 @@ type genTriple struct {
 	Outfile string   `json:"outfile"` // single-file outputs: file name below the output directory
 	Marker  string   `json:"marker"`
 	NoDir   bool     `json:"no_dir"` // single-file output: no directory management
+	Synth   bool     `json:"synth"`  // the schema is synthesised from (SchemaSeed, SchemaMask) of the scenario
+}
+
+// synthSchema derives a small schema from a seed: a universe of eight types with seed-chosen namespaces and names
+// (so that file names of every shape occur), of which mask selects the ones present. Two masks of one seed model
+// an evolving schema: types appear and disappear, the others keep their text.
+func synthSchema(seed uint64, mask uint8) string {
+	r := rand.New(rand.NewPCG(seed, 16))
+	syl := []string{"o", "ob", "or", "op", "obj", "da", "ta", "ke", "mi", "zu", "ex", "lo", "d", "x", "h", "cpp", "go", "php"}
+	nss := []string{"", "", "a", "b", "o", "ox", "obj"}
+	type ty struct{ ns, name string }
+	var us []ty
+	seen := map[string]bool{"int": true, "string": true, "long": true, "go": true, "do": true, "or": true}
+	for len(us) < 8 {
+		t := ty{ns: nss[r.IntN(len(nss))]}
+		for k := 1 + r.IntN(3); k > 0; k-- {
+			t.name += syl[r.IntN(len(syl))]
+		}
+		if seen[t.name] || seen[t.ns+"."+t.name] || len(t.name) < 2 {
+			continue
+		}
+		seen[t.ns+"."+t.name] = true
+		if t.ns == "" {
+			seen[t.name] = true
+		}
+		us = append(us, t)
+	}
+	full := func(t ty, upper bool) string {
+		n := t.name
+		if upper {
+			n = strings.ToUpper(n[:1]) + n[1:]
+		}
+		if t.ns == "" {
+			return n
+		}
+		return t.ns + "." + n
+	}
+	var b strings.Builder
+	b.WriteString("---types---\nint#a8509bda ? = Int;\nstring#b5286e24 ? = String;\n")
+	var fns strings.Builder
+	for i, t := range us {
+		nf := r.IntN(4)
+		var fields []string
+		for j := 0; j < nf; j++ {
+			ft := []string{"int", "string"}[r.IntN(2)]
+			if i > 0 && r.IntN(3) == 0 {
+				if k := r.IntN(i); mask&(1<<k) != 0 {
+					ft = full(us[k], true)
+				}
+			}
+			fields = append(fields, fmt.Sprintf("f%d:%s", j, ft))
+		}
+		wantFn := r.IntN(3) == 0
+		if mask&(1<<i) == 0 {
+			continue
+		}
+		fmt.Fprintf(&b, "%s %s = %s;\n", full(t, false), strings.Join(fields, " "), full(t, true))
+		if wantFn {
+			fn := ty{ns: t.ns, name: "get" + strings.ToUpper(t.name[:1]) + t.name[1:]}
+			fmt.Fprintf(&fns, "@any %s q:int = %s;\n", full(fn, false), full(t, true))
+		}
+	}
+	b.WriteString("---functions---\n")
+	b.WriteString(fns.String())
+	return b.String()
+}
+
+// resolved returns the triple with its inputs in place: synthetic schemas are written to the scratch directory.
+func (g *genCtx) resolved(t genTriple, seed uint64, mask uint8) genTriple {
+	if !t.Synth {
+		return t
+	}
+	path := filepath.Join(g.dir, fmt.Sprintf("synth-%016x-%02x.tl", seed, mask))
+	if _, err := os.Stat(path); err != nil {
+		_ = os.WriteFile(path, []byte(synthSchema(seed, mask)), 0o644)
+	}
+	t.Inputs = []string{path}
+	t.Name = fmt.Sprintf("%s[%016x/%02x]", t.Name, seed, mask)
+	return t
 }
 
 const tlsDir = "/repo/internal/tlcodegen/test/tls/"
@@ -205,6 +284,11 @@ func triples() []genTriple {
 		{Name: "php-legacy-cases", Tool: "tlgen", Args: []string{"--language=php", "--php-rpc-support=true", "--php-serialization-bodies=true", "--php-generate-fetchers=true", "--php-generate-switcher=true", "--php-use-builtin-data-providers=true", "--php-add-type-comments=true", "--php-generate-fetchers-echo-comment=false", "--php-serialization-bodies-whitelist="}, Inputs: []string{tlsDir + "cases.tl"}, Marker: "tlgen2_version.txt"},
 		{Name: "cpp-cycles", Tool: "tlgen", Args: []string{"-language=cpp", "--cpp-generate-meta=true", "--cpp-generate-factory=true"}, Inputs: []string{xsDir + "cycles.tl"}, Marker: "tlgen2_version.txt"},
 		{Name: "cpp-dirs", Tool: "tlgen", Args: []string{"-language=cpp"}, Inputs: []string{xsDir + "dirB", xsDir + "dirA", xsDir + "dirC"}, Marker: "tlgen2_version.txt"},
+		{Name: "go-synth", Tool: "tl2gen", Synth: true, Args: append(append([]string{}, goBase...), "--pkgPath=github.com/VKCOM/tl/x/synth/tl", "--generateRPCCode", "--generateRandomCode"), Marker: "meta/meta.go"},
+		{Name: "go-synth-split-bytes", Tool: "tl2gen", Synth: true, Args: append(append([]string{}, goBase...), "--split-internal", "--pkgPath=github.com/VKCOM/tl/x/synth/tl", "--generateByteVersions=*"), Marker: "meta/meta.go"},
+		{Name: "php-synth", Tool: "tl2gen", Synth: true, Args: []string{"--language=php", "--php-rpc-support=true", "--php-serialization-bodies=true", "--php-generate-fetchers=true", "--php-generate-switcher=true", "--php-use-builtin-data-providers=true", "--php-add-type-comments=true", "--php-generate-fetchers-echo-comment=false"}, Marker: "VK/TL/RpcFunctionFetcher.php"},
+		{Name: "cpp-synth", Tool: "tlgen", Synth: true, Args: []string{"-language=cpp", "--cpp-generate-meta=true", "--cpp-generate-factory=true"}, Marker: "tlgen2_version.txt"},
+		{Name: "php-legacy-synth", Tool: "tlgen", Synth: true, Args: []string{"--language=php", "--php-rpc-support=true", "--php-serialization-bodies=true", "--php-generate-fetchers=true", "--php-generate-switcher=true", "--php-use-builtin-data-providers=true", "--php-add-type-comments=true", "--php-generate-fetchers-echo-comment=false", "--php-serialization-bodies-whitelist="}, Marker: "tlgen2_version.txt"},
 		{Name: "tlo-legacy-cases", Tool: "tlgen", Args: []string{"--language=cpp"}, Inputs: []string{tlsDir + "cases.tl"}, Marker: "tlgen2_version.txt", Outfile: "+tlo"},
 	}
 	var out []genTriple
@@ -222,6 +306,7 @@ type variant struct {
 	Strategy  int    `json:"strategy"`
 	TapeSeed  uint64 `json:"tape_seed"`
 	InputPerm []int  `json:"input_perm"`
+	OverRef   bool   `json:"over_ref,omitempty"` // c15: generate over the reference output instead of into an empty directory
 }
 
 type histGen struct {
@@ -229,6 +314,8 @@ type histGen struct {
 	Plant    []plantSpec  `json:"plant,omitempty"`
 	Fault    *vrt.FSFault `json:"fault,omitempty"`
 	Variant  variant      `json:"variant"`
+	SchemaSeed uint64     `json:"schema_seed,omitempty"` // synthetic-schema triples
+	SchemaMask uint8      `json:"schema_mask,omitempty"`
 	// direct drive
 	Files    map[string]string `json:"files,omitempty"`
 }
@@ -237,11 +324,27 @@ type plantSpec struct {
 	Path    string `json:"path"` // relative to the output directory
 	Content string `json:"content"`
 	DropMarker bool `json:"drop_marker,omitempty"` // remove the marker file instead of planting
+	LinkTo  string `json:"link_to,omitempty"` // plant a symbolic link with this target instead of a file
+}
+
+// a directory next to the output directory that foreign symbolic links point into; nothing in it may ever change
+const elsewhere = simRoot + "/work/elsewhere"
+
+func linkPlant(r *rand.Rand) plantSpec {
+	switch r.IntN(3) {
+	case 0:
+		return plantSpec{Path: "zz_linked_pkg", LinkTo: elsewhere + "/pkg"}
+	case 1:
+		return plantSpec{Path: "zz_linked_file.txt", LinkTo: elsewhere + "/pkg/keep1.txt"}
+	}
+	return plantSpec{Path: "zz_dangling", LinkTo: elsewhere + "/missing"}
 }
 
 type genScenario struct {
 	Mode     string    `json:"mode"` // c15 | c16-direct | c16-real
 	Triple   int       `json:"triple"`
+	SchemaSeed uint64  `json:"schema_seed,omitempty"`
+	SchemaMask uint8   `json:"schema_mask,omitempty"`
 	Variants []variant `json:"variants"`
 	History  []histGen `json:"history,omitempty"`
 	Enumerate bool     `json:"enumerate"` // c16-direct: every crash index and error kind at every mutating op of the last generation
@@ -289,16 +392,21 @@ func (genEngine) Gen(seed uint64, params map[string]any) json.RawMessage {
 	switch sc.Mode {
 	case "c15":
 		sc.Triple = r.IntN(len(ts))
+		sc.SchemaSeed, sc.SchemaMask = r.Uint64(), uint8(1+r.IntN(255))
 		n := 2
 		for i := 0; i < n; i++ {
-			sc.Variants = append(sc.Variants, genVariant(r, len(ts[sc.Triple].Inputs)))
+			v := genVariant(r, len(ts[sc.Triple].Inputs))
+			v.OverRef = r.IntN(3) == 0
+			sc.Variants = append(sc.Variants, v)
 		}
 	case "c16-direct":
 		ng := 2 + r.IntN(5)
 		for i := 0; i < ng; i++ {
 			h := histGen{Variant: genVariant(r, 0), Files: synthFiles(r, 10, "meta/marker.txt")}
 			if i > 0 && r.IntN(3) == 0 {
-				switch r.IntN(4) {
+				switch r.IntN(5) {
+				case 4:
+					h.Plant = append(h.Plant, linkPlant(r))
 				case 0:
 					h.Plant = append(h.Plant, plantSpec{Path: fmt.Sprintf("foreign%d.txt", r.IntN(3)), Content: "foreign"})
 				case 1:
@@ -332,7 +440,7 @@ func (genEngine) Gen(seed uint64, params map[string]any) json.RawMessage {
 			var small []int
 			for _, i := range dirTriples {
 				switch ts[i].Name {
-				case "go-dirs", "go-bootstrap-nobasic", "cpp-dirs", "cpp-cpp":
+				case "go-dirs", "go-bootstrap-nobasic", "cpp-dirs", "cpp-cpp", "go-synth", "cpp-synth":
 					small = append(small, i)
 				}
 			}
@@ -340,14 +448,44 @@ func (genEngine) Gen(seed uint64, params map[string]any) json.RawMessage {
 				dirTriples = small
 			}
 		}
+		var synthTriples []int
+		for _, i := range dirTriples {
+			if ts[i].Synth {
+				synthTriples = append(synthTriples, i)
+			}
+		}
 		for i := 0; i < ng; i++ {
 			ti := dirTriples[r.IntN(len(dirTriples))]
-			if i > 0 && r.IntN(3) == 0 {
-				ti = sc.History[i-1].Triple // regenerate the same: nothing may be rewritten
+			if len(synthTriples) > 0 && r.IntN(2) == 0 {
+				// small synthetic schemas generate in a fraction of the time: half of the histories use them
+				ti = synthTriples[r.IntN(len(synthTriples))]
+			}
+			if i > 0 && r.IntN(2) == 0 {
+				ti = sc.History[i-1].Triple // regenerate the same (or, for synthetic schemas, the next version of the same family)
 			}
 			h := histGen{Triple: ti, Variant: genVariant(r, len(ts[ti].Inputs))}
+			if ts[ti].Synth {
+				h.SchemaSeed, h.SchemaMask = r.Uint64(), uint8(1+r.IntN(255))
+				if i > 0 && sc.History[i-1].Triple == ti {
+					// the same schema family evolves: some types disappear, some appear (or nothing changes)
+					h.SchemaSeed = sc.History[i-1].SchemaSeed
+					switch r.IntN(3) {
+					case 0:
+						h.SchemaMask = sc.History[i-1].SchemaMask
+					case 1:
+						h.SchemaMask = sc.History[i-1].SchemaMask ^ uint8(1<<r.IntN(8))
+					case 2:
+						h.SchemaMask = sc.History[i-1].SchemaMask & uint8(r.IntN(256)) // several types disappear at once
+					}
+					if h.SchemaMask == 0 {
+						h.SchemaMask = 1
+					}
+				}
+			}
 			if i > 0 && r.IntN(3) == 0 {
-				switch r.IntN(3) {
+				switch r.IntN(4) {
+				case 3:
+					h.Plant = append(h.Plant, linkPlant(r))
 				case 0:
 					h.Plant = append(h.Plant, plantSpec{Path: "foreign.txt", Content: "foreign"})
 				case 1:
@@ -637,7 +775,7 @@ func (genEngine) Exec(t *testing.T, raw json.RawMessage, tape *vrt.Tape, keepLog
 }
 
 func execC15(g *genCtx, sc genScenario, logf func(string, ...any), fail func(string, string), out *vrt.RunOut) {
-	tr := triples()[sc.Triple]
+	tr := g.resolved(triples()[sc.Triple], sc.SchemaSeed, sc.SchemaMask)
 	outdir := simRoot + "/work/out"
 	base := filepath.Join(g.dir, "empty.disk")
 	_ = os.WriteFile(base, emptyDisk(simRoot+"/work"), 0o644)
@@ -672,7 +810,13 @@ func execC15(g *genCtx, sc genScenario, logf func(string, ...any), fail func(str
 	}
 	for i, v := range sc.Variants {
 		vd := filepath.Join(g.dir, fmt.Sprintf("var%d.disk", i))
-		res, err := g.child(genJob{Args: tr.argsFor(outdir, v), MapPolicy: v.MapPolicy, NumCPU: v.NumCPU, Strategy: v.Strategy, TapeSeed: v.TapeSeed, DiskIn: base, DiskOut: vd})
+		in := base
+		if v.OverRef && !tr.NoDir {
+			// regenerating over the previous output of the same triple is the everyday case: same bytes again
+			in = refDisk
+			g.probes["probe.c15_variant_over_previous_output"]++
+		}
+		res, err := g.child(genJob{Args: tr.argsFor(outdir, v), MapPolicy: v.MapPolicy, NumCPU: v.NumCPU, Strategy: v.Strategy, TapeSeed: v.TapeSeed, DiskIn: in, DiskOut: vd})
 		if err != nil {
 			fail("machinery", err.Error())
 			return
@@ -688,7 +832,7 @@ func execC15(g *genCtx, sc genScenario, logf func(string, ...any), fail func(str
 		}
 		logf("variant %d map=%d cpu=%d perm=%v files=%d hash=%s", i, v.MapPolicy, v.NumCPU, v.InputPerm, len(tree), treeHash(tree))
 		if d := diffTrees(refTree, tree); d != "" {
-			fail("C15/output-differs", fmt.Sprintf("%s: output under map order policy %d, writer pool width %d, input order %v differs from the reference (ascending order, width 1): %s", tr.Name, v.MapPolicy, v.NumCPU, v.InputPerm, d))
+			fail("C15/output-differs", fmt.Sprintf("%s: output under map order policy %d, writer pool width %d, input order %v differs from the reference (ascending order, width 1; over previous output: %v): %s", tr.Name, v.MapPolicy, v.NumCPU, v.InputPerm, v.OverRef, d))
 			return
 		}
 		out.Nontrivial = true
@@ -705,7 +849,13 @@ func execC16(g *genCtx, sc genScenario, direct bool, logf func(string, ...any), 
 	outdir := simRoot + "/work/out"
 	disk := filepath.Join(g.dir, "hist.disk")
 	// the runtime-library directory (addressed by the generator with a leading "..") exists beforehand, as the writer expects
-	_ = os.WriteFile(disk, emptyDisk(simRoot+"/work", simRoot+"/work/runtime"), 0o644)
+	{
+		d, _ := vrt.LoadSimFS(emptyDisk(simRoot+"/work", simRoot+"/work/runtime"))
+		d.Plant(elsewhere+"/pkg/keep1.txt", []byte("not part of any generation 1"))
+		d.Plant(elsewhere+"/pkg/sub/keep2.txt", []byte("not part of any generation 2"))
+		d.Plant(elsewhere+"/pkg/meta/marker.txt", []byte("a marker of somebody else"))
+		_ = os.WriteFile(disk, d.Snapshot(), 0o644)
+	}
 	ts := triples()
 	prefix := outdir + "/"
 	allowedOutside := func(p string) bool { // the runtime library location: paths the generator addresses with a leading ".."
@@ -715,7 +865,7 @@ func execC16(g *genCtx, sc genScenario, direct bool, logf func(string, ...any), 
 		marker := "meta/marker.txt"
 		var tr genTriple
 		if !direct {
-			tr = ts[hg.Triple]
+			tr = g.resolved(ts[hg.Triple], hg.SchemaSeed, hg.SchemaMask)
 			marker = tr.Marker
 		}
 		// plant foreign files / drop the marker
@@ -729,17 +879,13 @@ func execC16(g *genCtx, sc genScenario, direct bool, logf func(string, ...any), 
 			d, _ := vrt.LoadSimFS(b)
 			for _, p := range hg.Plant {
 				if p.DropMarker {
-					nd := vrt.NewSimFS(simRoot)
-					for k, v := range d.Tree() {
-						if k != prefix+marker {
-							nd.Plant(k, v)
-						}
-					}
-					for _, dd := range d.DirList() {
-						nd.PlantDir(dd)
-					}
-					d = nd
+					d.Unplant(prefix + marker)
 					g.probes["fault.marker_removed"]++
+					continue
+				}
+				if p.LinkTo != "" {
+					d.PlantLink(prefix+p.Path, p.LinkTo)
+					g.probes["fault.foreign_symlink_planted"]++
 					continue
 				}
 				if strings.HasSuffix(p.Path, "/.") {
@@ -784,6 +930,22 @@ func execC16(g *genCtx, sc genScenario, direct bool, logf func(string, ...any), 
 		for _, op := range res.Ops {
 			if op.Err == "" && !strings.HasPrefix(op.Path, prefix) && op.Path != outdir && !allowedOutside(op.Path) {
 				fail("C16/write-outside-output-directory", fmt.Sprintf("generation %d performed %s %s outside the output directory %s", gi, op.Op, op.Path, outdir))
+				return
+			}
+		}
+		// ... and, by state: every file that lived outside the output directory is still there, unchanged
+		for k, v := range before {
+			if strings.HasPrefix(k, prefix) || allowedOutside(k) {
+				continue
+			}
+			if nv, ok := after[k]; !ok || !bytes.Equal(nv, v) {
+				fail("C16/write-outside-output-directory", fmt.Sprintf("generation %d changed or removed %s, which is outside the output directory %s (present afterwards: %v)", gi, k, outdir, ok))
+				return
+			}
+		}
+		for k := range after {
+			if _, was := before[k]; !was && !strings.HasPrefix(k, prefix) && !allowedOutside(k) {
+				fail("C16/write-outside-output-directory", fmt.Sprintf("generation %d created %s outside the output directory %s", gi, k, outdir))
 				return
 			}
 		}
@@ -848,6 +1010,9 @@ func execC16(g *genCtx, sc genScenario, direct bool, logf func(string, ...any), 
 		}
 		// successful generation: the directory contains exactly this generation's files
 		g.probes["probe.c16_successful_generations"]++
+		if tr.Synth {
+			g.probes["probe.c16_successful_generations_synthetic_schema"]++
+		}
 		if direct {
 			want := map[string][]byte{}
 			for k, v := range hg.Files {
